@@ -23,7 +23,7 @@ ASSUMPTIONS = ["nvmon.ref exact reference model", "only removable knots are remo
 FLOORS = {'quick': {'removal': 300, 'probe-lib': 3000, 'probe-defn': 3000, 'structure': 300, 'restored': 120},
           'thorough': {'removal': 4000, 'probe-lib': 40000, 'restored': 1500}}
 MANDATORY_TAGS = ['pdim1', 'pdim2', 'pdim3', 'rational', 'multi-dir-one-call', 'partial-removal', 'full-removal', 'after-refine', 'interleaved',
-                  'via:method', 'via:operations', 'dir:u', 'dir:v', 'dir:w', 'on-knot', 'in-span', 'caller-value-removal', 'big-coordinates', 'tuple-knot-vector', 'unclamped', 'on-domain-end', 'short-knot-range']
+                  'via:method', 'via:operations', 'dir:u', 'dir:v', 'dir:w', 'on-knot', 'in-span', 'caller-value-removal', 'big-coordinates', 'tuple-knot-vector', 'unclamped', 'on-domain-end', 'short-knot-range', 'multiplicity-p+1-removal']
 TECHNIQUE = ("runtime monitoring: shadow-model oracle (exact reference of the original definition + remembered original control "
              "points) evaluated after every removal step of a seeded insert/refine/remove history")
 LEVEL_TEXT = ("Every removal the workload performs is compared exactly with the original shape and structurally with the expected "
@@ -49,6 +49,9 @@ def gen(rng, tier, shard, nshards):
         sd = G.rand_shape(rng, pd, clamped_only=not unclamped, **(dict(kw, kvcls=rng.choice(['unclamped', 'unclamped_rep'])) if unclamped else kw))
         yield {'kind': 'history', 'sd': sd, 'seed': rng.randrange(1 << 30),
                'mode': rng.choice(['single', 'single', 'single', 'two', 'two', 'refine', 'multi-dir', 'multi-dir'])}
+        if i % 5 == 3:
+            sd4 = G.rand_shape(rng, 1, clamped_only=True, kvcls='random', maxextra=4, maxdeg=4, normalize=rng.random() < 0.7)
+            yield {'kind': 'history', 'sd': sd4, 'seed': rng.randrange(1 << 30) | 1, 'mode': 'full-plus-one'}
         if i % 3 == 2:
             # large, uniformly offset coordinates (UTM metres, millimetres): removability must not be decided on an absolute scale
             sd3 = G.rand_shape(rng, 1, clamped_only=True, mindeg=4, maxdeg=7, maxextra=2, rational=rng.random() < 0.3, normalize=True)
@@ -182,9 +185,57 @@ def check_shared(case, ctx, rng):
     ctx.nontriv(True)
 
 
+def check_full_plus_one(case, ctx, rng):
+    """a removable interior knot stored with multiplicity p + 1 (junction control point stored twice - what joining two pieces end to
+    end gives): all p + 1 copies can be removed, and removing them restores the original"""
+    from geomdl import operations, BSpline, NURBS
+    sd = case['sd']
+    o = G.build(sd)
+    S0 = G.defn_of(o)
+    sc = so.scale_of_defn(S0)
+    p = sd['degrees'][0]
+    pick = so.pick_insertion(rng, o, 0, prefer_knot=0.0, mindist=0.05)
+    if pick is None or pick[2] != 'in-span':
+        raise Reject()
+    u = pick[0]
+    operations.insert_knot(o, [u], [p])
+    kv = list(o.knotvector)
+    us = stored_knot(o, 0, u)
+    first = kv.index(us)
+    hom = [list(q) for q in G.hom_pts_of(o)]
+    hom2 = hom[:first] + [list(hom[first - 1])] + hom[first:]          # the point C(u) once more
+    kv2 = kv[:first] + [us] + kv[first:]
+    o2 = (NURBS if sd['rational'] else BSpline).Curve(normalize_kv=sd['normalize_kv'])
+    o2.degree = p
+    o2.set_ctrlpts(hom2)
+    o2.knotvector = kv2
+    ctx.tag('multiplicity-p+1-removal', 'pdim1', 'rational' if sd['rational'] else 'nonrational')
+    probes = [q for q in so.probe_params(rng, S0, nrand=6, maxn=20) if so.clear_of_knots(G.defn_of(o2), q) and abs(q[0] - us) > 1e-9]
+    if not so.compare_object(ctx, o2, S0, probes, 1e-9 * sc, 'harness/p+1-construction', 'harness: the multiplicity p+1 form is not the same curve',
+                             'probe-lib'):
+        return
+    r = rng.choice([p + 1, p + 1, rng.randint(1, p)])
+    pre = G.snapshot(o2)
+    with so.quiet():
+        so.call_remove(o2, 0, stored_knot(o2, 0, us), r, rng.choice(['operations', 'method']))
+    post = G.snapshot(o2)
+    ctx.ok('removal')
+    ctx.tag('via:operations', 'dir:u', 'full-removal' if r == p + 1 else 'partial-removal')
+    if not removal_structure(ctx, pre, post, 0, stored_knot(o2, 0, us) if r < p + 1 else us, r):
+        return
+    S1 = G.defn_of_snapshot(post)
+    good = [q for q in probes if so.clear_of_knots(S1, q)]
+    if so.compare_object(ctx, o2, S0, good, 1e-8 * sc, 'shape-changed/library-eval', 'removing %d of the %d copies of a removable knot of multiplicity '
+                         'p+1 changed the curve' % (r, p + 1), 'probe-lib'):
+        so.compare_defns(ctx, S1, S0, good, 1e-8 * sc, 'shape-changed/definition', 'multiplicity p+1 removal: definition differs', 'probe-defn')
+    ctx.nontriv(True)
+
+
 def check(case, ctx):
     from geomdl import operations
     sd = case['sd']
+    if case.get('mode') == 'full-plus-one':
+        return check_full_plus_one(case, ctx, random.Random(case['seed']))
     rng = random.Random(case['seed'])
     pdim = sd['pdim']
     if pdim == 2 and case['seed'] % 7 == 0:
